@@ -368,6 +368,171 @@ def rule_try_call(rep, db):
     (rep.fail if why else rep.ok)("TRY", "either::try_call", F.primary_site(fn), F.describe(fn)[:160], **({"why": why} if why else {"how": "try{f()}=>success; catch(E const& e){conv(e)}=>failure"}))
 
 
+# ------------------------------------------------------------------------------------------------
+# loop-shaped combinators: every path (run-time range unrolled twice, longer ranges end as a truncated prefix)
+
+def _elem_tags(p, rng, tagname):
+    """({index: more?}, {index: tag}) decided on the path for the elements of the range parameter"""
+    more, tags = {}, {}
+    for a, b in p.decisions:
+        t = sx.show(a)
+        m = re.match(r"^more\(%s, (\d+)\)$" % re.escape(rng), t)
+        if m:
+            more[int(m.group(1))] = b
+        m = re.match(r"^%s\(%s\[(\d+)\]\)$" % (tagname, re.escape(rng)), t)
+        if m:
+            tags[int(m.group(1))] = b
+    return more, tags
+
+
+def _inserted(p):
+    out = []
+    for e in p.events:
+        nm = e[0].split("<")[0]
+        if nm in ("std::vector::insert", "std::vector::push_back", "std::vector::emplace_back"):
+            if nm == "std::vector::insert" and ":end" not in sx.show(e[1][1]):
+                out.append("%s inserted at %s, not at the end" % (sx.show(e[1][-1]), sx.show(e[1][1])))
+            else:
+                out.append(sx.show(e[1][-1]))
+    return out
+
+
+def rule_loops(rep, db, cfg):
+    def each(qn):
+        seen = set()
+        for fn in db.fns(qn):
+            k = (F.primary_site(fn), tuple(fn.get("targs") or []))
+            if k in seen or not fn.get("params"):
+                continue
+            seen.add(k)
+            try:
+                ps = sx.Interp(db, cfg).paths(fn, limit=600)
+            except sx.Unsupported as e:
+                rep.broken("C04 LOOP: %s outside the interpreted fragment: %s" % (F.describe(fn)[:120], e))
+                continue
+            yield fn, ps
+
+    def verdict(fn, key, bad, n):
+        if bad:
+            rep.fail("LOOP", key, F.primary_site(fn), F.describe(fn)[:200], why=bad[0], detail={"path": bad[1].show()})
+        else:
+            rep.ok("LOOP", key, F.primary_site(fn), F.describe(fn)[:200], how="all-paths", detail={"paths": n})
+
+    # sequence: first absent element / failure in iteration order decides; otherwise every payload once, in order
+    for qn, tagname, payload, absent in (("fcppt::optional::sequence", "has_value", "some_payload", None),
+                                         ("fcppt::either::sequence", "has_success", "success_payload", "failure_payload")):
+        for fn, ps in each(qn):
+            rng = fn["params"][0]["name"]
+            bad = None
+            full = 0
+            for p in ps:
+                if p.outcome[0] != "return":
+                    continue
+                more, tags = _elem_tags(p, rng, tagname)
+                n = len([i for i, b in more.items() if b])
+                first_bad = next((i for i in range(n) if tags.get(i) is False), None)
+                out = sx.show(p.outcome[1])
+                ins = _inserted(p)
+                if first_bad is None:
+                    if any(i not in tags for i in range(n)):
+                        bad = ("an element's tag is never examined although the result is built from all of them", p)
+                        break
+                    want = ["%s(%s[%d])" % (payload, rng, i) for i in range(n)]
+                    if ins != want or not (out.endswith(":some") or out.endswith(":success")):
+                        bad = ("all %d elements are engaged: expected the container of their payloads in order %s, got %s with %s" % (n, want, out, ins), p)
+                        break
+                    full += 1
+                else:
+                    want_out = ":none" if absent is None else "%s(%s[%d])}:failure" % (absent, rng, first_bad)
+                    if not out.endswith(want_out) or (absent is None and ins):
+                        bad = ("element %d is the first %s one: expected %s, got %s" % (first_bad, "empty" if absent is None else "failing", want_out, out), p)
+                        break
+            if not bad and not full:
+                bad = ("no complete path builds the full result", ps[0])
+            verdict(fn, "%s|%s" % (qn.replace("fcppt::", ""), ",".join(fn.get("targs") or [])[:80]), bad, len(ps))
+    # cat: exactly the engaged elements, in order
+    for fn, ps in each("fcppt::optional::cat"):
+        rng = fn["params"][0]["name"]
+        bad = None
+        for p in ps:
+            if p.outcome[0] != "return":
+                continue
+            more, tags = _elem_tags(p, rng, "has_value")
+            n = len([i for i, b in more.items() if b])
+            want = ["some_payload(%s[%d])" % (rng, i) for i in range(n) if tags.get(i)]
+            if any(i not in tags for i in range(n)) or _inserted(p) != want:
+                bad = ("expected exactly the payloads of the engaged elements in order %s, got %s" % (want, _inserted(p)), p)
+                break
+        verdict(fn, "optional::cat|%s" % ",".join(fn.get("targs") or [])[:80], bad, len(ps))
+    # first_success: functions called in order, each at most once, stop at the first success, all failures collected
+    for fn, ps in each("fcppt::either::first_success"):
+        rng = fn["params"][0]["name"]
+        bad = None
+        for p in ps:
+            calls = [(i, e) for i, e in enumerate(p.events, 1) if e[0] == "call"]
+            idx = [sx.show(e[1][0]) for i, e in calls]
+            if idx != ["%s[%d]" % (rng, k) for k in range(len(idx))]:
+                bad = ("the functions are not called in container order, each once: %s" % idx, p)
+                break
+            if p.outcome[0] != "return":
+                continue
+            dec = {sx.show(a): b for a, b in p.decisions}
+            oks = [dec.get("has_success(#%d:call)" % i) for i, e in calls]
+            out = sx.show(p.outcome[1])
+            if True in oks:
+                k = oks.index(True)
+                if k != len(calls) - 1 or not out.endswith("success_payload(#%d:call)}:success" % calls[k][0]):
+                    bad = ("function %d is the first to succeed: expected its success and no further call, got %s after %d calls" % (k, out, len(calls)), p)
+                    break
+            else:
+                want = ["failure_payload(#%d:call)" % i for i, e in calls]
+                if _inserted(p) != want or not out.endswith(":failure"):
+                    bad = ("no function succeeds: expected the failures of all %d calls in order, got %s / %s" % (len(calls), _inserted(p), out), p)
+                    break
+        verdict(fn, "either::first_success|%s" % ",".join(fn.get("targs") or [])[:80], bad, len(ps))
+    # loop: next() until it fails; body exactly once per success with that success; the failure is the result
+    for fn, ps in each("fcppt::either::loop"):
+        nxt, body = fn["params"][0]["name"], fn["params"][1]["name"]
+        bad = None
+        for p in ps:
+            evs = [(i, e) for i, e in enumerate(p.events, 1) if e[0] == "call"]
+            dec = {sx.show(a): b for a, b in p.decisions}
+            k = 0
+            why = None
+            last_fail = None
+            while k < len(evs):
+                i, e = evs[k]
+                if sx.show(e[1][0]) != nxt or len(e[1]) != 1:
+                    why = "expected a call of %s, found %s" % (nxt, sx.show_event(e))
+                    break
+                ok = dec.get("has_success(#%d:call)" % i)
+                if ok is True:
+                    if k + 1 >= len(evs):
+                        if p.outcome[0] != "truncated":
+                            why = "a success of %s is not passed to %s" % (nxt, body)
+                        break
+                    j, e2 = evs[k + 1]
+                    if [sx.show(a) for a in e2[1]] != [body, "success_payload(#%d:call)" % i]:
+                        why = "after a success the body is not called with exactly that success: %s" % sx.show_event(e2)
+                        break
+                    k += 2
+                elif ok is False:
+                    last_fail = i
+                    if k != len(evs) - 1:
+                        why = "calls continue after %s failed" % nxt
+                    break
+                else:
+                    why = "the result of %s is not examined" % nxt
+                    break
+            if not why and p.outcome[0] == "return":
+                if last_fail is None or sx.show(p.outcome[1]) != "failure_payload(#%d:call)" % last_fail:
+                    why = "the result is %s, expected the failure that ended the loop" % sx.show(p.outcome[1])
+            if why:
+                bad = (why, p)
+                break
+        verdict(fn, "either::loop|%s" % ",".join(fn.get("targs") or [])[:80], bad, len(ps))
+
+
 def main(rep, tier, only):
     db = load.load(tier, lib=False, drivers=["drv_oev"])
     rep.extra.update(db.stats())
@@ -379,6 +544,9 @@ def main(rep, tier, only):
                     "tag assignment that does not establish it", floor=25)
     rep.rule("PACK", "variadic combinators: all-engaged row invokes the function exactly once with every payload in "
                      "argument order, any other row never invokes it (either::apply: first failure in argument order)", floor=6)
+    rep.rule("LOOP", "loop-shaped combinators on every path of a twice-unrolled run-time range: sequence = first empty / failing element in "
+                     "iteration order, else every payload once in order; cat = exactly the engaged payloads in order; first_success = functions "
+                     "in order, stop at the first success, else all failures in order; loop = next() until failure, body once per success", floor=6)
     rep.rule("VCMP", "variant::compare: same alternative => the comparator is invoked exactly once with (payload of left, payload of right) "
                      "in that order and its result returned; different alternatives => false without invoking it", floor=1)
     rep.rule("TRY", "either::try_call: the function is called exactly once inside the try block and its result wrapped as success; the handler "
@@ -396,6 +564,8 @@ def main(rep, tier, only):
         rule_pack(rep, db, cfg, "fcppt::optional::apply", "optional")
         rule_pack(rep, db, cfg, "fcppt::optional::maybe_multi", "optional")
         rule_pack(rep, db, cfg, "fcppt::either::apply", "either")
+    if only in (None, "LOOP"):
+        rule_loops(rep, db, cfg)
     if only in (None, "VCMP"):
         rule_variant_compare(rep, db, cfg)
     if only in (None, "TRY"):
@@ -425,4 +595,5 @@ def main(rep, tier, only):
         "parametricity of the templates (written argument in specs/C04-laws.md, not mechanised).")
     rep.trusted = ["clang 14 front end", "std::optional / std::variant semantics behind has_value / holds_type / get_unsafe",
                    "the parametricity argument of specs/C04-laws.md", "specification tables specs/C04-tables.json (quoted from the doxygen text)"]
-    rep.assumptions = ["loops (cat, sequence, first_success, loop) are checked under their own rules with a bounded unrolling of 2 iterations"]
+    rep.assumptions = ["loop-shaped combinators (cat, sequence, first_success, loop) are decided for ranges of length 0, 1 and 2 and as prefixes beyond (rule LOOP); "
+                       "the lift to every length is the uniformity of the loop body in the index (not mechanised)"]
